@@ -553,3 +553,156 @@ pub fn replay_file(
 pub fn arc<T>(t: T) -> Arc<T> {
 	Arc::new(t)
 }
+
+// ---------------------------------------------------------------- process-level parallelism
+//
+// grin funnels all libsecp work through one process-wide mutex
+// (util::static_secp_instance), so threads do not scale for crypto-bound
+// properties. `pbt_proc` therefore runs K child processes (`gv child pbt …`),
+// each a single-threaded seeded proptest runner over its share of the cases,
+// and merges their evidence. Seeds are derived per child from VERIF_SEED.
+
+/// signature of a property module's `part` function: run `cases` generated
+/// cases of `part` with `seed`, single-threaded; return the minimal failing case.
+pub type PartFn = fn(&Ctx, &str, u64, u32) -> Option<(Value, Fail)>;
+
+impl Ev {
+	pub fn export(&self) -> Value {
+		let g = self.0.lock().unwrap();
+		json!({
+			"evaluations": g.evaluations,
+			"shapes": g.shapes.iter().collect::<Vec<_>>(),
+			"classes": g.classes,
+			"samples": g.samples,
+			"excluded_known": g.excluded_known,
+			"extra": g.extra,
+		})
+	}
+	pub fn merge(&self, v: &Value) {
+		let mut g = self.0.lock().unwrap();
+		g.evaluations += v["evaluations"].as_u64().unwrap_or(0);
+		if let Some(a) = v["shapes"].as_array() {
+			for s in a {
+				if let Some(x) = s.as_u64() {
+					g.shapes.insert(x);
+				}
+			}
+		}
+		if let Some(m) = v["classes"].as_object() {
+			for (k, n) in m {
+				*g.classes.entry(k.clone()).or_insert(0) += n.as_u64().unwrap_or(0);
+			}
+		}
+		if let Some(a) = v["samples"].as_array() {
+			for s in a {
+				let key = s["part"].as_str().unwrap_or("").to_string();
+				if !g.sample_keys.contains(&key) && g.samples.len() < 12 {
+					g.sample_keys.insert(key);
+					g.samples.push(s.clone());
+				}
+			}
+		}
+		g.excluded_known += v["excluded_known"].as_u64().unwrap_or(0);
+		if let Some(m) = v["extra"].as_object() {
+			for (k, x) in m {
+				// numeric extras are summed, others kept from the first child
+				let merged = match (g.extra.get(k).and_then(|o| o.as_f64()), x.as_f64()) {
+					(Some(a), Some(b)) if x.is_u64() => json!((a + b) as u64),
+					(Some(a), Some(b)) => json!(a.max(b)),
+					_ => x.clone(),
+				};
+				g.extra.insert(k.clone(), merged);
+			}
+		}
+	}
+}
+
+pub fn pbt_proc(ctx: &Ctx, part: &str, total_cases: u64, procs: usize) -> Option<(Value, Fail)> {
+	let procs = procs.max(1).min(total_cases.max(1) as usize);
+	let per = (total_cases + procs as u64 - 1) / procs as u64;
+	let exe = std::env::current_exe().expect("current_exe");
+	let tmp = ctx.scratch_dir(&format!("proc-{}", part.replace('/', "_")));
+	let mut kids = vec![];
+	for k in 0..procs {
+		let out = tmp.join(format!("{}.json", k));
+		let seed = ctx.derive_seed(part, k as u64);
+		let child = std::process::Command::new(&exe)
+			.args([
+				"child",
+				"pbt",
+				&ctx.id,
+				part,
+				if ctx.quick() { "quick" } else { "thorough" },
+				&seed.to_string(),
+				&per.to_string(),
+				out.to_str().unwrap(),
+			])
+			.env("GV_ROOT", &ctx.root)
+			.stdin(std::process::Stdio::null())
+			.stdout(std::process::Stdio::null())
+			.spawn()
+			.expect("spawn child");
+		kids.push((k, child, out));
+	}
+	let mut first: Option<(Value, Fail)> = None;
+	for (k, mut child, out) in kids {
+		let status = child.wait().expect("wait child");
+		let body = std::fs::read_to_string(&out).ok().and_then(|s| serde_json::from_str::<Value>(&s).ok());
+		match body {
+			Some(v) => {
+				ctx.ev.merge(&v["evidence"]);
+				if first.is_none() && !v["failure"].is_null() {
+					let f = &v["failure"];
+					first = Some((
+						f["case"].clone(),
+						Fail::new(f["sig"].as_str().unwrap_or("?"), f["msg"].as_str().unwrap_or("?")),
+					));
+				}
+			}
+			None => {
+				// the child died without reporting: the in-flight case is unknown,
+				// which is a harness-level problem unless a property says otherwise
+				eprintln!("child {} of part {} exited with {:?} without a result file", k, part, status);
+				ctx.ev.class("children_died_without_result");
+				if first.is_none() {
+					first = Some((
+						json!({"child": k, "seed": ctx.derive_seed(part, k as u64), "cases": per}),
+						Fail::new("harness:child-died", format!("child process for part {} died: {:?}", part, status)),
+					));
+				}
+			}
+		}
+	}
+	let _ = std::fs::remove_dir_all(&tmp);
+	first
+}
+
+/// body of `gv child pbt …`
+pub fn child_pbt(ctx: &Ctx, part_fn: PartFn, part: &str, seed: u64, cases: u32, out: &Path) -> i32 {
+	let r = match catch(|| part_fn(ctx, part, seed, cases)) {
+		Ok(r) => r,
+		Err(f) => Some((json!({"note": "panic outside a case"}), f)),
+	};
+	let failure = match r {
+		Some((case, f)) => json!({"case": case, "sig": f.sig, "msg": f.msg}),
+		None => Value::Null,
+	};
+	let body = json!({"evidence": ctx.ev.export(), "failure": failure});
+	let tmp = out.with_extension("tmp");
+	if std::fs::write(&tmp, serde_json::to_string(&body).unwrap()).is_ok() {
+		let _ = std::fs::rename(&tmp, out);
+	}
+	ctx.cleanup();
+	0
+}
+
+/// helper for `part` functions: run a strategy single-threaded and turn the
+/// minimal failure into (json, Fail)
+pub fn run_part<S, F>(ctx: &Ctx, seed: u64, cases: u32, strat: &S, f: F) -> Option<(Value, Fail)>
+where
+	S: Strategy,
+	S::Value: Clone + std::fmt::Debug + serde::Serialize,
+	F: Fn(&S::Value, bool) -> PResult,
+{
+	pbt(seed, cases, strat, &ctx.stop, f).map(|fl| (serde_json::to_value(&fl.value).unwrap_or(Value::Null), fl.fail))
+}
